@@ -931,16 +931,16 @@ def _unique_inds(ar):
 
     """
     ar = np.asanyarray(ar).flatten()
-    ar.sort()
-    aux = ar
+    # Sort a copy - the returned indices must refer to positions in the input
+    aux = np.sort(ar)
 
     mask = np.empty(aux.shape, dtype=np.bool_)
     mask[:1] = True
     mask[1:] = aux[1:] != aux[:-1]
 
-    ar_inds = [np.where(ar == ii)[0] for ii in ar[mask]]
+    ar_inds = [np.where(ar == ii)[0] for ii in aux[mask]]
 
-    return ar[mask], ar_inds
+    return aux[mask], ar_inds
 
 
 ###################################################
